@@ -2311,10 +2311,10 @@ func ackTypes(t int8) []int8 {
 // pointer; entries with status 0 (reset or unhandled) are skipped.
 // hasRenew is true if any entry has AckRenew status.
 //
-// Entries and gaps are sorted by offset before coalescing so that
-// contiguous same-type ranges merge regardless of insertion order.
-// The two are built separately (gaps are acked immediately so they
-// rarely coalesce with user entries).
+// Entries and gaps are sorted by offset and then merged in offset
+// order, so that contiguous same-type ranges coalesce regardless of
+// insertion order and the result is ascending: the broker rejects
+// acknowledgement batches that are not in ascending offset order.
 func buildAckRanges(entries []*shareAckState, gaps []shareAckRange) (ranges []shareAckRange, hasRenew bool) {
 	slices.SortFunc(entries, func(a, b *shareAckState) int {
 		return cmp.Compare(a.offset, b.offset)
@@ -2322,6 +2322,12 @@ func buildAckRanges(entries []*shareAckState, gaps []shareAckRange) (ranges []sh
 	slices.SortFunc(gaps, func(a, b shareAckRange) int {
 		return cmp.Compare(a.firstOffset, b.firstOffset)
 	})
+	return mergeAckRanges(entries, gaps)
+}
+
+// mergeAckRanges merges entries (sorted by offset) and gaps (sorted by
+// first offset) into ascending ranges.
+func mergeAckRanges(entries []*shareAckState, gaps []shareAckRange) (ranges []shareAckRange, hasRenew bool) {
 	// Dedupe: a single record can have multiple entries for the same offset
 	// (e.g. Ack(AckRenew) then Ack(AckAccept) both append; the terminal
 	// CAS overwrites the renew but the renew entry remains in the slice).
@@ -2329,6 +2335,7 @@ func buildAckRanges(entries []*shareAckState, gaps []shareAckRange) (ranges []sh
 	// this, the request carries two adjacent [X,X,T] batches and the
 	// broker rejects with INVALID_RECORD_STATE.
 	var lastOffset int64 = -1
+	var gi int
 	for _, e := range entries {
 		t := int8(e.status.Load())
 		if t == 0 {
@@ -2341,6 +2348,13 @@ func buildAckRanges(entries []*shareAckState, gaps []shareAckRange) (ranges []sh
 		if t == int8(AckRenew) {
 			hasRenew = true
 		}
+		// Gaps that precede this entry go first: a gap can sit below
+		// offsets the user has already acked (records 5,6 acked while
+		// the gap 3-4 of the same acquisition is still pending).
+		for gi < len(gaps) && gaps[gi].firstOffset < e.offset {
+			ranges = coalesceAppendRange(ranges, gaps[gi])
+			gi++
+		}
 		ranges = coalesceAppendRange(ranges, shareAckRange{
 			firstOffset:  e.offset,
 			lastOffset:   e.offset,
@@ -2349,8 +2363,8 @@ func buildAckRanges(entries []*shareAckState, gaps []shareAckRange) (ranges []sh
 			ackType:      t,
 		})
 	}
-	for _, g := range gaps {
-		ranges = coalesceAppendRange(ranges, g)
+	for ; gi < len(gaps); gi++ {
+		ranges = coalesceAppendRange(ranges, gaps[gi])
 	}
 	return
 }
